@@ -29,9 +29,8 @@ def get? (t : Tum) (typename fieldname : String) : Option String :=
 /-- `TypeURLMap.GetTypeIsImplementsNode`: `none` = type unknown to the table -/
 def isNode? (t : Tum) (typename : String) : Option Bool := (props? t typename).map (·.isNode)
 
-def dedup : List String → List String
-  | [] => []
-  | x :: xs => x :: dedup (xs.filter (· != x))
+def dedup (l : List String) : List String :=
+  l.foldl (fun acc x => if acc.contains x then acc else acc ++ [x]) []
 
 /-- `TypeURLMap.GetURLs` (a set; Go map order — callers must not depend on the order) -/
 def urls (t : Tum) : List String := dedup (t.flatMap (fun (_, p) => p.fields.map (·.2)))
